@@ -82,22 +82,49 @@ def handle (j : Json) : R Json := do
   | "nrpspks" =>
     -- C14's transcription of classify / add_component over the regenerated tables
     let rules : ModRules := c14Rules
-    return reply input (NrpsPks.fromJson rules ctx input) NrpsPks.toJson (NrpsPks.valid rules ctx)
-      [("may_reuse", toJson (Spec.nrpsPksMayReuse ctx input))]
+    let out := NrpsPks.fromJson rules ctx input
+    let ids := match out with | .reuse y => y.domainIds | _ => []
+    return reply input out NrpsPks.toJson (NrpsPks.valid rules ctx)
+      [("may_reuse", toJson (Spec.nrpsPksMayReuse ctx input)), ("domain_ids", jStrs ids)]
   | "hmmdet" =>
-    let o := fldD j "opts" (jObj [])
-    let opts : HmmOpts := ⟨(strF o "strictness").toOption.getD "relaxed",
-                           ← listOf asStr (fldD o "rule_names" (jArr [])),
-                           boolFD o "fungi" false,
-                           ← decOf (fldD o "cutoff" (jArr [toJson (1 : Int), toJson (0 : Int)])),
-                           ← decOf (fldD o "neighbourhood" (jArr [toJson (1 : Int), toJson (0 : Int)]))⟩
+    let optsOf (o : Json) : R HmmOpts := do
+      return ⟨(strF o "strictness").toOption.getD "relaxed",
+              ← listOf asStr (fldD o "rule_names" (jArr [])),
+              boolFD o "fungi" false,
+              ← decOf (fldD o "cutoff" (jArr [toJson (1 : Int), toJson (0 : Int)])),
+              ← decOf (fldD o "neighbourhood" (jArr [toJson (1 : Int), toJson (0 : Int)]))⟩
+    let opts ← optsOf (fldD j "opts" (jObj []))
     let out := HmmDet.regenerate ctx opts input
     let protos := match out with
       | .reuse y => y.rules.protoclusters.map fun p =>
           jObj [("loc", locJ p.loc), ("core", locJ p.core), ("product", .str p.product)]
       | _ => []
+    let fnJ (f : GeneFn) : Json := jArr [.str (match f.kind with | .core => "biosynthetic" | .additional => "biosynthetic-additional"),
+      .str f.tool, .str f.description, match f.product with | some p => .str p | none => .null]
+    let annotations := match out with
+      | .reuse y => y.rules.annotateAll.map fun p =>
+          jArr [.str p.1,
+                jArr ((p.2.secmet.getD []).map fun (d : SDomain) => jArr [.str d.name, decJ d.evalue, decJ d.bitscore, toJson d.nseeds, .str d.tool]),
+                jArr (p.2.functions.map fnJ)]
+      | _ => []
+    -- the producing run (present when the stored JSON was written by the real run_on_record)
+    let produced ← match j.getObjVal? "saved_opts" with
+      | .ok so => do
+        let saved ← optsOf so
+        let fresh := match j.getObjVal? "fresh_json" with
+          | .ok fj => (wireToJ fj).toOption
+          | .error _ => none
+        let target := fresh.getD input
+        let noGenes := boolFD j "no_genes" false
+        pure ([("saved_under", toJson (Spec.hmmDetSavedUnder saved target)), ("saved_ok", toJson saved.ok)]
+          ++ (if noGenes then
+                [("fresh_model", jToWire (HmmDet.runNoGenes { ctx with recordId := (strF j "saved_record_id").toOption.getD ctx.recordId }
+                                            saved ((strF j "tool").toOption.getD "")).toJson)]
+              else []))
+      | .error _ => pure []
     return reply input out HmmDet.toJson (HmmDet.valid ctx)
-      [("may_reuse", toJson (Spec.hmmDetMayReuse ctx opts input)), ("protos", jArr protos)]
+      ([("may_reuse", toJson (Spec.hmmDetMayReuse ctx opts input)), ("protos", jArr protos),
+        ("annotations", jArr annotations)] ++ produced)
   | "ruleres" =>
     return reply input (RuleRes.fromJson ctx input) RuleRes.toJson (RuleRes.valid ctx)
   | "sideload" =>
@@ -136,32 +163,65 @@ def handle (j : Json) : R Json := do
       | _ => (.null, false)
     return reply input out HmmerRes.toJson (HmmerRes.valid ctx)
       [("may_reuse", toJson (Spec.hmmerMayReuse ctx maxE minS input)), ("reference", reference),
-       ("fresh", fresh), ("on_boundary", toJson onBoundary)]
+       ("fresh", fresh), ("on_boundary", toJson onBoundary),
+       ("domain_ids", jStrs (match out with | .reuse y => y.domainIds | _ => []))]
   | "tta" =>
-    -- a history: the stored JSON is regenerated under each threshold in turn; after a discard the
-    -- module runs afresh (`detect` on the record's codons)
+    -- a history driven through `main.run_module` with the real tta module: per step the stored JSON
+    -- (if any) is regenerated under the step's threshold; the module runs when it is enabled
+    -- (`run_on_record` keeps results of the same record, otherwise `detect`)
     let gc ← decOf (← fld j "gc")
     let all ← listOf locOfJson (← fld j "all_codons")
     let steps ← listOf (fun s => do
-      return ((← decOf (← fld s "threshold")), (strF s "record_id").toOption.getD ctx.recordId)) (← fld j "steps")
-    let mut cur := input
+      return ((← decOf (← fld s "threshold")), (strF s "record_id").toOption.getD ctx.recordId,
+              boolFD s "in_all" true, boolFD s "enabled" true)) (← fld j "steps")
+    let mut cur : Option J := if boolFD j "has_prev" true then some input else none
     let mut outs : List Json := []
-    for (opt, rid) in steps do
-      let out := TTA.regenerate opt cur
-      let (final, ran) := match out with
-        | .reuse x => if x.keptByRun rid then (some x, false) else (some (TTA.detect rid gc opt all), true)
-        | .discard => (some (TTA.detect rid gc opt all), true)
-        | .refuse _ => (none, false)
-      match final with
-      | some x =>
-        let refOk := x.codons == Spec.ttaReference gc opt all
-        outs := outs ++ [jObj [("outcome", .str (outcomeName out)), ("ran", toJson ran),
-          ("json", jToWire x.toJson), ("reference_ok", toJson refOk), ("may_reuse", toJson (Spec.ttaMayReuse cur)),
-          ("features", jArr (x.features.map locJ))]]
-        cur := x.toJson
-      | none =>
-        outs := outs ++ [jObj [("outcome", .str (outcomeName out))]]
+    let mut stop := false
+    for (opt, rid, inAll, enabled) in steps do
+      if !stop then
+        let run : Option TTA → TTA := fun r => match r with
+          | some x => if x.keptByRun rid then x else TTA.detect rid gc opt all
+          | none => TTA.detect rid gc opt all
+        let regenName := match cur with
+          | some c => outcomeName (TTA.regenerate opt c)
+          | none => "none"
+        match runModule cur (TTA.regenerate opt) inAll enabled run with
+        | .reuse tr =>
+          let ran := match tr.ranWith with
+            | some (some x) => !x.keptByRun rid
+            | some none => true
+            | none => false
+          let mayReuse := match cur with | some c => Spec.ttaMayReuse c | none => true
+          match tr.stored with
+          | some x =>
+            let refOk := !(x.keptByRun rid) || x.codons == Spec.ttaReference gc opt all
+            let feats := match x.addToRecord rid with
+              | .reuse fs => jArr (fs.map locJ)
+              | o => .str (outcomeName o)
+            outs := outs ++ [jObj [("outcome", .str regenName), ("ran", toJson ran), ("called", toJson tr.ranWith.isSome),
+              ("json", jToWire x.toJson), ("reference_ok", toJson refOk), ("may_reuse", toJson mayReuse),
+              ("features", feats)]]
+            cur := some x.toJson
+          | none =>
+            outs := outs ++ [jObj [("outcome", .str regenName), ("ran", toJson ran), ("called", toJson tr.ranWith.isSome),
+              ("json", .null), ("reference_ok", toJson true), ("may_reuse", toJson mayReuse), ("features", jArr [])]]
+            cur := none
+        | o =>
+          outs := outs ++ [jObj [("outcome", .str (outcomeName o))]]
+          stop := true
     return jObj [("steps", jArr outs)]
+  | "resfile" =>
+    let out := ResultsFile.fromJson input
+    let extra := [("may_reuse", toJson (Spec.fileMayReuse input)),
+                  ("schema_current", toJson ResultsFile.schemaVersion),
+                  ("schema_compatible", jInts ResultsFile.compatibleSchemas)]
+    match out with
+    | .reuse f =>
+      return jObj ([("outcome", .str "reuse"), ("version", .str f.version), ("input_file", .str f.inputFile),
+        ("taxon", .str (ResultsFile.readDataTaxon "" f)),
+        ("modules", jArr (f.records.map fun r => jToWire (.obj r.modules))),
+        ("rewritten_schema", match Spec.field f.toJson "schema" with | some v => jToWire v | none => .null)] ++ extra)
+    | o => return jObj ([("outcome", .str (outcomeName o))] ++ extra)
   | "runmod" =>
     let hasPrev ← boolF j "has_prev"
     let regenKind ← strF j "regen"       -- "reuse" | "discard" | "refuse"
